@@ -102,7 +102,7 @@ class _alias_scope:
 
 def _deref_alias(n):
     seen = 0
-    while n is not None and n.get("k") == "Ref" and n.get("dk") == "local" and n.get("d") in _ALIAS and seen < 4:
+    while n is not None and n.get("k") == "Ref" and n.get("dk") in ("local", "param") and n.get("d") in _ALIAS and seen < 4:
         n = _ALIAS[n["d"]]
         seen += 1
     return n
@@ -1477,6 +1477,63 @@ class Interp:
             _ALIAS.clear()
             _ALIAS.update(saved)
 
+    def vector_helper(self, call):
+        """the analysed function behind a call that receives tracked pointer / size vectors by reference
+        (`static void _clone_alloc_arrays(std::vector<T*>& dst, const std::vector<T*>& src, const std::vector<Index>& sizes, bool copy)`):
+        a static or same-object, non-virtual helper of the repository whose body is interpreted on the caller's vectors"""
+        if self.depth > 3 or call.get("k") not in ("Call", "MCall"):
+            return None
+        args = call.get("a") or []
+        if not any(vec_member(unwrap(a)) or size_member(unwrap(a)) for a in args):
+            return None
+        if call.get("k") == "MCall" and not call.get("cstatic") and not (call.get("obj") is None or obj_id(call.get("obj")) == "this"):
+            return None
+        g = self.any_callee(call)
+        if g is None or g.body is None or g is self.fn or g.d.get("virtual") or len(g.params) != len(args) or str(call.get("callee", "")).startswith("std::"):
+            return None
+        for p_, a in zip(g.params, args):
+            if vec_member(unwrap(a)) or size_member(unwrap(a)):
+                if not (g.type(p_["t"]) or "").rstrip().endswith("&"):
+                    return None          # passed by value: a copy of the pointers, not the member
+        return g
+
+    def inline_vector_helper(self, call, g, st):
+        bind = {}
+        for p_, a in zip(g.params, call.get("a") or []):
+            a0 = _deref_alias(unwrap(a))
+            if vec_member(a0) or size_member(a0):
+                bind[p_["d"]] = a0
+        saved = dict(_ALIAS)
+        try:
+            sub = Interp(self.fam, g, env=self.call_env(g, call), summaries=self.summaries, depth=self.depth + 1)
+            sub.aliases = dict(sub.aliases)
+            sub.aliases.update(bind)
+            sub.init_state = dict(st)
+            sub.run()
+        finally:
+            _ALIAS.clear()
+            _ALIAS.update(saved)
+        for u in sub.unknown:
+            self.unk("in helper %s: %s" % (short(g.qn), u))
+        for (r, sub_, ok, det, line) in sub.obligations:
+            self.nevents += 1
+            self.obligations.append((r, sub_, ok, ("[in helper %s] " % short(g.qn)) + det if not ok else det, line))
+        for kk, why in sub.taints.items():
+            self.taints.setdefault(kk, why)
+        if sub.taint_all and not self.taint_all:
+            self.taint_all = sub.taint_all
+        self.copy_events.extend(sub.copy_events)
+        self.mode_undecided.extend(sub.mode_undecided)
+        self.opaque_fills |= sub.opaque_fills
+        self.touched = self.touched or sub.touched
+        out = None
+        for s_, _l in sub.exits:
+            out = join_state(out, s_)
+        if out is None:
+            return None          # the helper never returns normally
+        # locals of the helper do not outlive it
+        return {k_: v_ for k_, v_ in out.items() if not (k_[0] in ("val", "lenvar") and k_ not in st)}
+
     def for_each_pool(self, n):
         """`std::for_each(O.V.begin(), O.V.end(), [](T* p){ MemoryPool::release|increase_memory(p); })` - the algorithm form
         of the whole-vector loop.  -> (what, obj-expr, kind, range-ok) or None"""
@@ -1923,6 +1980,10 @@ class Interp:
         if not is_call(n):
             return st
         cal = n.get("callee", "")
+        if k in ("Call", "MCall"):
+            vh = self.vector_helper(n)
+            if vh is not None:
+                return self.inline_vector_helper(n, vh, st)
         if cal == "std::for_each":
             fe = self.for_each_pool(n)
             if fe is not None:
@@ -1999,6 +2060,8 @@ class Interp:
             i = p["a"].index(n)
             pt = p.get("pt") or []
             t = self.fn.type(pt[i]) if i < len(pt) else ""
+            if pk in ("Call", "MCall") and self.vector_helper(p) is not None:
+                return st          # the helper's body is interpreted on these vectors when the call itself is visited
             if t.startswith("const ") and t.endswith("&"):
                 return st
             self.taint(o, "%s is passed to %s as %s (line %s), which the check does not model" % (name, p.get("callee"), t or "?", line), (kind,))
@@ -2280,7 +2343,7 @@ class Interp:
             if mode is not None and base is not None:
                 with _alias_scope():
                     it = Interp(self.fam, base, env={base.params[1]["n"]: mode}, summaries=self.summaries, depth=self.depth + 1).run()
-                if not it.unknown and it.exits and not it.mode_undecided:
+                if not it.unknown and it.exits and not it.mode_undecided and not it.taints and not it.taint_all:
                     stx = None
                     for s_, _ in it.exits:
                         stx = join_state(stx, s_)
